@@ -861,6 +861,7 @@ func (ex *Exec) havocLoopMemory(li *loopInfo) {
 	}
 	var cellsToHavoc []cell
 	wholeKeys := map[string]bool{}
+	regionHavoc := map[string][]int{}
 	all := false
 	inLoop := func(v ssa.Value) bool {
 		in, ok := v.(ssa.Instruction)
@@ -934,6 +935,16 @@ func (ex *Exec) havocLoopMemory(li *loopInfo) {
 					cellsToHavoc = append(cellsToHavoc, cs...)
 					continue
 				}
+				if regs, rest, cls, ok := ex.loopCallRegions(in.Common(), inLoop); ok {
+					for k, ids := range regs {
+						regionHavoc[k] = append(regionHavoc[k], ids...)
+					}
+					for _, k := range rest {
+						wholeKeys[k] = true
+					}
+					cellsToHavoc = append(cellsToHavoc, cls...)
+					continue
+				}
 				eff := ex.callEffect(in.Common())
 				switch {
 				case eff.all:
@@ -970,6 +981,29 @@ func (ex *Exec) havocLoopMemory(li *loopInfo) {
 	}
 	for _, cl := range cellsToHavoc {
 		c.havocCell(ex.cur, cl, "loopcell")
+	}
+	// field regions written by callees: fresh array that agrees with the
+	// pre-loop array outside the region
+	var rks []string
+	for k := range regionHavoc {
+		if !wholeKeys[k] {
+			rks = append(rks, k)
+		}
+	}
+	sort.Strings(rks)
+	for _, k := range rks {
+		old := c.memRaw(ex.cur, k)
+		c.havocKey(ex.cur, k)
+		nw := ex.cur.m[k]
+		a := c.fresh("a")
+		c.bound[a] = true
+		var in []Term
+		for _, id := range regionHavoc[k] {
+			in = append(in, eq(app("ftag", a), fmt.Sprint(id)))
+		}
+		c.hasQ = true
+		c.assume(fmt.Sprintf("(forall ((%s Int)) (! %s :pattern ((select %s %s))))", a,
+			or(append(in, eq(app("select", nw, a), app("select", old, a)))...), nw, a))
 	}
 	var ks []string
 	for k := range wholeKeys {
@@ -1012,6 +1046,67 @@ func rootAlloc(v ssa.Value) *ssa.Alloc {
 			return nil
 		}
 	}
+}
+
+// loopCallRegions: for a call in a loop whose contract modifies only field
+// regions (fieldmem) and whole map/type memories, the regions and the keys.
+func (ex *Exec) loopCallRegions(cc *ssa.CallCommon, inLoop func(ssa.Value) bool) (regs map[string][]int, rest []string, cells []cell, ok bool) {
+	var fc *FuncContract
+	var fn *ssa.Function
+	if cc.IsInvoke() {
+		fc = ex.ifaceContract(cc)
+	} else if fn = cc.StaticCallee(); fn != nil {
+		fc = ex.contractFor(fn)
+	}
+	if fc == nil || !fc.HasMod {
+		return nil, nil, nil, false
+	}
+	defer func() {
+		if r := recover(); r != nil {
+			regs, rest, cells, ok = nil, nil, nil, false
+		}
+	}()
+	regs = map[string][]int{}
+	has := false
+	var env *Env
+	for _, m := range fc.Modifies {
+		switch {
+		case m == "everything" || strings.HasPrefix(m, "typemem(") || strings.HasPrefix(m, "map("):
+			return nil, nil, nil, false
+		case strings.HasPrefix(m, "fieldmem("):
+			has = true
+			for k, ids := range ex.fieldRegion(ex.v.pkgOf(fc.Pkg), m) {
+				regs[k] = append(regs[k], ids...)
+			}
+		case strings.HasPrefix(m, "mapsof("):
+			t := ex.v.lookupType(ex.v.pkgOf(fc.Pkg), strings.TrimSuffix(strings.TrimPrefix(m, "mapsof("), ")"))
+			if t == nil {
+				return nil, nil, nil, false
+			}
+			for _, mt := range mapsOf(t, map[string]bool{}) {
+				rest = append(rest, ex.mapKeysOf(mt)...)
+			}
+		default:
+			if env == nil {
+				var args []Val
+				for _, a := range cc.Args {
+					if inLoop(a) {
+						if t, ok := ex.staticAddr(a, inLoop); ok {
+							args = append(args, refVal(t, a.Type()))
+							continue
+						}
+						args = append(args, Val{K: KLit, T: "unavailable"})
+						continue
+					}
+					args = append(args, ex.val(a))
+				}
+				env = &Env{c: ex.c, v: ex.v, vars: map[string]Val{}, mem: ex.cur, pkg: ex.v.pkgOf(fc.Pkg)}
+				ex.bindParams(env, fn, cc, Val{}, args)
+			}
+			cells = append(cells, ex.lvalueCells(env, m, fc.Full())...)
+		}
+	}
+	return regs, rest, cells, has
 }
 
 // staticAddr: the address denoted by v if it is computed from loop-invariant
